@@ -486,15 +486,16 @@ def strip_redundant(node: Any) -> Any:
     return node
 
 
-def positive_requirement(node: Any, negations: int = 0) -> Optional[bool]:
-    """True: some requirement sits below no negation at all. False: every requirement is
-       below exactly an odd number... -> more precisely: False if all leaves are negated an odd
-       number of times or once; None if the only un-negated-looking leaves sit below an even,
-       non-zero number of negations (documentation silent)."""
-    best = _positive_scan(node, 0)
-    if 0 in best:
+def positive_requirement(node: Any) -> Optional[bool]:
+    """'At least one positive requirement must exist' (documented with the examples `not a`,
+       `not a and not c`, `not (a or c)` versus `a`, `a and not c`, `(a or not c)`).
+       True: some profile requirement sits below no negation at all. False: every requirement
+       sits below an odd number of negations. None: no requirement is free of negations but some
+       sit below an even number of them, e.g. `not (a and not b)` -- the documentation is silent."""
+    depths = _positive_scan(node, 0)
+    if 0 in depths:
         return True
-    if any(depth % 2 == 0 for depth in best):
+    if any(depth % 2 == 0 for depth in depths):
         return None
     return False
 
